@@ -6,7 +6,8 @@ repositories on a memory server; the same list goes to the Coq model
 
   env       vcsgraph's find_difference / find_lca == {null:} / heads / iter_topo_order
             on the real repository graph vs Lib/Dag (the model's environment assumptions)
-  plan      generate_simple_plan with the real Graph of the real repository.
+  plan      generate_simple_plan with the real Graph of the real repository (and the order in which the
+            real rebase() then replays the plan, recorded by a rewriter that writes nothing).
             via=cmd: todo_set = graph.find_difference(stop, onto)[0] exactly as cmd_rebase
             does; via=direct: any todo_set / start / stop (incl. the error branches).
             rebase_todo is run on every plan produced.
@@ -49,12 +50,13 @@ META = {
                   "tied to breezy/plugins/rewrite/rebase.py by a correspondence run on real repositories"),
     "level_text": ("partial (P-core): for every well-formed revision graph (unbounded; merges, criss-cross, ghosts, several roots), "
                    "every topological order topo_sort may return and every injective id generator, the modelled plan's domain is "
-                   "exactly the present revisions of ancestry(stop) minus ancestry(onto) (or the start..stop slice), each new "
-                   "parent is onto, the new id of an earlier entry that rewrites an old parent, or an old parent outside the "
-                   "replayed slice; rebase_todo and every topological order of the old graph put dependencies first; the plan file "
-                   "round-trips for all ids without blank/newline.  With skip_full_merged the parent clause is REFUTED (candidate "
-                   "finding) and proved in the weaker form that holds.  generate_transpose_plan is modelled and tied by correspondence, "
-                   "but only one small fact is proved about it."),
+                   "exactly the present revisions of ancestry(stop) minus ancestry(onto) (or the start..stop slice, minus merges dropped "
+                   "by skip_full_merged), each new parent is onto, the new id of an earlier entry that rewrites an old parent (or a "
+                   "parent of a dropped merge among them), or an old parent outside the replayed slice -- with and without "
+                   "skip_full_merged since the repair be02b0d; rebase_todo (plan order) puts dependencies first; the order rebase() "
+                   "uses (iter_topo_order of the keys) does so only without skip_full_merged (REFUTED with it: candidate finding "
+                   "C51-dropped-merge-replay-order); the plan file round-trips for all ids without blank/newline.  "
+                   "generate_transpose_plan is modelled and tied by correspondence, but only one small fact is proved about it."),
     "level_note": ("Trusted: Coq kernel, vm_compute, the hand models' correspondence (bounded sampling), vcsgraph (heads, find_lca, "
                    "find_difference, topo_sort) as modelled by Lib/Dag / Lib/DagTopo hypotheses (compared / checked on every run). "
                    "Only bzr 2a repositories; the replay itself (rebase(), revision rewriters) is outside the property."),
@@ -192,7 +194,8 @@ FIXED = [
     [[], [0], [1], [0], [0], [3, 2, 1], [5]],
 ]
 
-# C51-skipped-merge-child: F = child of a merge E that skip_full_merged drops
+# regression input of the fixed C51-skipped-merge-child (be02b0d) and witness of
+# C51-dropped-merge-replay-order: F = child of a merge E that skip_full_merged drops
 WITNESS = {"kind": "plan", "via": "cmd", "g": FIXED[0], "todo": [3, 4, 5], "pm_order": [3, 4, 5],
            "order": [3, 4, 5], "start": None, "stop": 5, "onto": 2, "skip": True, "same": None}
 
@@ -464,13 +467,16 @@ def impl(inp):
         except Exception as e:
             if type(e).__name__ not in PLAN_ERRORS:
                 raise
-            res = [Err(type(e).__name__), None]
+            res = [Err(type(e).__name__), None, None]
         else:
             canon = _canon_plan(plan)
             if canon is None:
-                res = [Tag("new-ids-not-fresh"), None]
+                res = [Tag("new-ids-not-fresh"), None, None]
             else:
-                res = [canon, [idx(x) for x in R.rebase_todo(repo, plan)]]
+                # the order in which the real rebase() replays the plan (recording rewriter, nothing is written)
+                calls = []
+                R.rebase(repo, plan, lambda oldrevid, newrevid, newparents: calls.append(oldrevid))
+                res = [canon, [idx(x) for x in R.rebase_todo(repo, plan)], [idx(x) for x in calls]]
         if inp["via"] == "cmd":
             return [sorted(idx(x) for x in todo_set), res]
         return res
@@ -492,6 +498,9 @@ def _unmarshall(R, text):
 def impl_obs(inp, obs):
     if inp["kind"] == "env" and isinstance(obs, list):
         return obs[:6]            # iter_topo_order's order is not modelled (checked by the oracle)
+    if inp["kind"] == "plan" and isinstance(obs, list):
+        # the order in which rebase() would replay is an environment value (checked by the oracle)
+        return [obs[0], obs[1][:2]] if inp["via"] == "cmd" else obs[:2]
     return obs
 
 
@@ -570,19 +579,39 @@ def _plan_violation(inp, plan):
     news = [e[1] for e in plan]
     if len(set(news)) != len(news):
         return ("two revisions are rewritten to the same new id", None, None)
+    dropped = set(todo) - set(keys)
     earlier = {}
     for old, new, ps in plan:
         if not ps:
             return ("revision %d is rewritten without parents" % old, old, None)
         for p in ps:
             ok = (p == onto
-                  or (p in earlier and earlier[p] in g[old])
+                  or (p in earlier and _linked(g, dropped, earlier[p], old))
                   or (p in g[old] and p not in todo))
             if not ok:
                 return ("new parent %d of rewritten revision %d is neither the new base %d, nor the new id of an earlier "
-                        "entry that rewrites one of its parents, nor an old parent outside the replayed revisions" % (p, old, onto),
-                        old, p)
+                        "entry that rewrites one of its parents (or a parent of a dropped merge among them), nor an old parent "
+                        "outside the replayed revisions" % (p, old, onto), old, p)
         earlier[new] = old
+    return None
+
+
+def _linked(g, dropped, o, r):
+    """Theory/Rebase.linked: o is a parent of r, or of a dropped merge that is (linked as) a parent of r."""
+    return o in g[r] or any(q in dropped and _linked(g, dropped, o, q) for q in g[r] if q < len(g))
+
+
+def _replay_violation(plan, replay):
+    """rebase() replays in `replay` order: (message, old, the entry it needs) when an entry comes before one it depends on"""
+    if sorted(replay) != sorted(e[0] for e in plan):
+        return ("rebase() replays %r, which is not a permutation of the plan's keys" % (replay,), None, None)
+    pos = {r: i for i, r in enumerate(replay)}
+    by_new = {e[1]: e[0] for e in plan}
+    for old, new, ps in plan:
+        for p in ps:
+            if p in by_new and pos[by_new[p]] > pos[old]:
+                return ("rebase() would replay %d before %d, whose rewritten revision %d is one of its new parents (replay order %r)"
+                        % (old, by_new[p], p, replay), old, by_new[p])
     return None
 
 
@@ -632,7 +661,7 @@ def oracle(inp, obs):
         if obs[0] != sorted(inp["todo"]):
             return "find_difference(%d, %d)[0] = %r, reference %r" % (inp["stop"], inp["onto"], obs[0], sorted(inp["todo"]))
         res = obs[1]
-    plan, todo_after = res
+    plan, todo_after, replay = res
     if isinstance(plan, Tag):
         return "the generated revision ids are not fresh / not pairwise different"
     if isinstance(plan, Err):
@@ -651,21 +680,26 @@ def oracle(inp, obs):
         return v[0]
     if todo_after != [e[0] for e in plan]:
         return "rebase_todo on a fresh plan gave %r, plan order is %r" % (todo_after, [e[0] for e in plan])
+    v = _replay_violation(plan, replay)
+    if v:
+        return v[0]
     return None
 
 
 def finding_matches(fid, inp, obs, why):
-    if fid != "C51-skipped-merge-child" or inp.get("kind") != "plan" or not inp["skip"]:
+    # C51-skipped-merge-child is fixed (be02b0d): no longer excused
+    if fid != "C51-dropped-merge-replay-order" or inp.get("kind") != "plan" or not inp["skip"]:
         return False
     res = obs[1] if inp["via"] == "cmd" else obs
     if not isinstance(res, list) or not isinstance(res[0], list):
         return False
-    v = _plan_violation(inp, res[0])
-    if not v or v[2] is None:
+    if _plan_violation(inp, res[0]):
         return False
-    g, p = inp["g"], v[2]
-    # the offending parent is an old merge revision that was to be replayed but was skipped
-    return p in _todo_slice(inp) and p < len(g) and len(g[p]) >= 2 and p not in [e[0] for e in res[0]]
+    v = _replay_violation(res[0], res[2])
+    if not v or v[1] is None:
+        return False
+    # the dependency runs through a dropped merge: the needed entry is not an old parent of the revision
+    return v[2] not in inp["g"][v[1]]
 
 
 def nontrivial(inp, obs):
